@@ -216,7 +216,28 @@ func DrawData(t *rapid.T, maxLen int, label string) Data {
 	if target > maxLen {
 		target = maxLen
 	}
+	if maxLen >= 140000 && rapid.IntRange(0, 5).Draw(t, label+".segedge?") == 0 {
+		return drawSegmentEdge(t, label)
+	}
 	return DrawDataN(t, target, label)
+}
+
+// drawSegmentEdge aims at the 64 KiB segment boundaries on which the fast compressor re-bases its 16-bit table
+// positions: a long match is made to end within +-2 bytes of position k*65536-1 (so that the search resumes right at
+// the boundary) and is followed, after 0..3 bytes, by a short repeat of bytes lying 65534..65538 back.
+func drawSegmentEdge(t *rapid.T, label string) Data {
+	k := rapid.IntRange(1, 2).Draw(t, label+".k")
+	end := k*65536 - 1 + rapid.SampledFrom([]int{0, 0, 0, -1, 1, -2, 2}).Draw(t, label+".enddelta")
+	mlen := rapid.SampledFrom([]int{8, 40, 300, 5000}).Draw(t, label+".mlen")
+	dist := rapid.SampledFrom([]int{1, 7, 100, 4000}).Draw(t, label+".mdist")
+	head := end - mlen
+	var d Data
+	d.Segs = append(d.Segs, Seg{K: "rand", N: head, S: rapid.Uint64().Draw(t, label+".seed")})
+	d.Segs = append(d.Segs, Seg{K: "copy", N: mlen, P: dist, S: 1})
+	d.Segs = append(d.Segs, Seg{K: "rand", N: rapid.SampledFrom([]int{0, 1, 2, 2, 3}).Draw(t, label+".gap"), S: rapid.Uint64().Draw(t, label+".gapseed")})
+	d.Segs = append(d.Segs, Seg{K: "copy", N: rapid.SampledFrom([]int{4, 5, 6, 8, 20}).Draw(t, label+".rlen"), P: rapid.SampledFrom([]int{65534, 65535, 65536, 65537, 65537, 65538}).Draw(t, label+".rdist"), S: 2})
+	d.Segs = append(d.Segs, Seg{K: "rand", N: rapid.IntRange(13, 60).Draw(t, label+".tail"), S: rapid.Uint64().Draw(t, label+".tailseed")})
+	return d
 }
 
 // DrawDataN draws a recipe of exactly n bytes.
